@@ -10,6 +10,22 @@ K_MODEST = 50.0      # "modest multiple"
 RTOLS = [1e-3, 1e-5, 1e-7, 1e-9]
 
 
+def decouple(prob, rng):
+    """prob (+) a small-amplitude oscillator that shares nothing with it: per-component tolerances then have a per-component
+    meaning (seeded change C01-b: Radau derived every atol'[i] from component 0's atol/rtol ratio)"""
+    d = len(prob["y0"])
+    w = rng.choice([3.0, 5.0])
+    amp = rng.choice([1e-6, 1e-9])
+    ex0 = prob["exact"]
+    p2 = {"name": prob["name"], "f": list(prob["f"]) + [gen.mul(gen.C(w), gen.Y(d + 1)), gen.neg(gen.mul(gen.C(w), gen.Y(d)))],
+          "y0": list(prob["y0"]) + [amp, 0.0], "x0": 0.0, "span": prob["span"],
+          "exact": lambda t: list(ex0(t)) + [amp * math.cos(w * t), -amp * math.sin(w * t)]}
+    if prob.get("jac"):
+        Z = gen.C(0.0)
+        p2["jac"] = [list(row) + [Z, Z] for row in prob["jac"]] + [[Z] * d + [Z, gen.C(w)], [Z] * d + [gen.C(-w), Z]]
+    return p2, amp
+
+
 def builder(seed, n, defaults, tag):
     rng = random.Random(seed)
     methods = [m for m in sweep.available_methods() if m != "RK4"]
@@ -29,11 +45,18 @@ def builder(seed, n, defaults, tag):
             mode = "mixed"   # rtol = 0 with Radau is the known finding F13, exercised separately below
         use_te = rng.random() < 0.4
         vec_atol = rng.random() < 0.3
+        amp = None
+        if mode == "mixed" and rng.random() < 0.3:
+            prob, amp = decouple(prob, rng)
         for rt in RTOLS:
             rtol = 0.0 if mode == "abs" else rt
             atol = 0.0 if mode == "rel" else rt * 1e-2 if mode == "mixed" else rt
+            atolv = [atol] * len(prob["y0"]) if vec_atol else atol
+            if amp is not None:
+                # the oscillator block gets an absolute tolerance in proportion to its amplitude
+                atolv = [atol] * (len(prob["y0"]) - 2) + [atol * amp] * 2
             kw = dict(method=method, prob=prob, x0=x0, xend=xend, rtol=rtol,
-                      atol=([atol] * len(prob["y0"]) if vec_atol else atol), defaults=defaults)
+                      atol=atolv, defaults=defaults)
             if method in ("RADAU", "BDF"):
                 kw["use_jac"] = bool(prob.get("jac")) and (g % 2 == 0)
             if use_te:
@@ -67,15 +90,17 @@ def builder(seed, n, defaults, tag):
 def sample_error(meta, kw, r):
     """max over samples of |y - exact| / (atol + rtol*|y|)  and the raw max error"""
     ex = meta["exact"]
-    rt = kw["rtol"] if isinstance(kw["rtol"], float) else max(kw["rtol"])
-    at = kw["atol"] if isinstance(kw["atol"], float) else max(kw["atol"])
+    # vector tolerances are constant vectors, except on decoupled blocks (constant within each block)
+    nn = len(kw["prob"]["y0"])
+    rts = [kw["rtol"]] * nn if isinstance(kw["rtol"], float) else kw["rtol"]
+    ats = [kw["atol"]] * nn if isinstance(kw["atol"], float) else kw["atol"]
     worst, raw = 0.0, 0.0
     for t, y in zip(r.get("t", []), r.get("y", [])):
         e = ex(t - 0.0)
-        for yi, ei in zip(y, e):
+        for i, (yi, ei) in enumerate(zip(y, e)):
             err = abs(yi - ei)
             raw = max(raw, err)
-            worst = max(worst, err / (at + rt * abs(ei) + 1e-300))
+            worst = max(worst, err / (ats[i] + rts[i] * abs(ei) + 1e-300))
     return worst, raw
 
 
